@@ -69,7 +69,8 @@ type Eval struct {
 
 func (a *Analyzer) NewEval(e *Effect, r *Results) *Eval {
 	ev := &Eval{A: a, E: e, R: r}
-	ev.facts, ev.rw = a.Normalize(a.Close(e.Facts, 4))
+	// facts are already closed under the validator summaries (materialised eagerly by the dataflow)
+	ev.facts, ev.rw = a.Normalize(e.Facts)
 	return ev
 }
 
@@ -270,8 +271,23 @@ func (ev *Eval) Find(p *Atom) []map[string]*Term {
 	return out
 }
 
+var entryLabels = []string{idE1, idE2, idE3, idE4}
+
 func (ev *Eval) key(rule, kind string) string {
 	entry := ev.E.Entry
+	// the nearest known entry on the call path labels the obligation (a drain reached from a sync is still "the drain")
+	for i := len(ev.E.Path) - 1; i >= 0; i-- {
+		found := false
+		for _, l := range entryLabels {
+			if ev.E.Path[i].Fn == l {
+				entry = l
+				found = true
+			}
+		}
+		if found {
+			break
+		}
+	}
 	if i := strings.LastIndex(entry, "."); i >= 0 {
 		entry = entry[i+1:]
 	}
